@@ -180,6 +180,7 @@ class RetrievalRecall(Metric[torch.Tensor]):
         Args:
             metrics (Iterable[Metric]): metric instances whose states are to be merged.
         """
+        metrics = list(metrics)  # the iterable is traversed more than once
 
         for i in range(self.num_queries):
             self.topk[i] = torch.cat([self.topk[i]] + [m.topk[i] for m in metrics]).to(
